@@ -122,10 +122,10 @@ CHECKS.update({
   "MultiPoint/MultiLineString features are skipped by the importer without error (no b6 feature type); recorded as an outcome."),
  "C35": e3("stateless model checking of 2-3 concurrent reader scripts on compact/overlay/basic worlds and of 2-goroutine builds under the controlled scheduler; auxiliary free-running race-detector pass",
   "Every interleaving at the world's lock points (feature cache, polyline cache, area geometry): each script's result equals its sequential result; no deadlock or panic in readers or builders; built world equals the 1-core world. A data-race report from the auxiliary -race binary (un-rewritten tree) is raised as a witness; its silence is sampling.",
-  "Race freedom itself is outside what a cooperative scheduler can decide (DESIGN 1.1); build exploration is capped (reported exhaustive:false with the bound)."),
- "C36": e3("exhaustive over configurations (cores 1..16 x sources x builders, native) + stateless model checking of 2-goroutine builds under the controlled scheduler (capped)",
-  "Every core count 2..16 on every source for the in-memory and compact builders gives a world whose dump equals the 1-core world; under the scheduler every explored interleaving of a 2-goroutine build gives that dump too, without deadlock or panic.",
-  "The schedule space of a whole build is large (thousands of choice points per execution): the E3 part is capped per scenario and reports the completed bound honestly."),
+  "Race freedom itself is outside what a cooperative scheduler can decide (DESIGN 1.1): unsynchronised accesses are only witnessed by the race-detector pass. Builds: basic builds complete preemption bound 1 (thorough 2) with deviations confined to one fork/join phase, compact builds deviation bound 0 (thorough 1); beyond that capped (exhaustive:false with the bound reached)."),
+ "C36": e3("exhaustive over configurations (cores 1..16 x sources x builders, native) + stateless model checking under the controlled scheduler of 2-core builds (bounded) and of the compact builder's shared Validator driven by 2-3 goroutines (every interleaving, no bound)",
+  "Every core count 2..16 on every source for the in-memory and compact builders gives a world whose dump equals the 1-core world; under the scheduler every explored interleaving of a 2-core build gives that dump too, without deadlock or panic; for every ordered partition of up to 5 of 10 paths/areas over 2-3 goroutines and every interleaving, the compact Validator hands back for emission exactly the features a single goroutine gets, each once.",
+  "The schedule space of a whole build is large (90 choice points per basic build, 2900 per compact build): basic builds complete preemption bound 2 (thorough 3) with deviations confined to one fork/join phase, compact builds deviation bound 0 (thorough 1); the evidence reports the bound each scenario completed and exhaustive:false where a cap was hit."),
  "C37": e2("bounded-exhaustive enumeration of menu sources with invalid variants x 5 build modes (3k/27k worlds x orders) + the C13 state graph; independent validator over EachFeature",
   "After every build mode and at every state of the edit search (including after accepted replacements) every path has >=2 resolvable points, closed paths are valid counter-clockwise loops and areas refer only to existing closed paths of >=3 points.",
   "Known findings: self-intersecting closed paths and clockwise coordinate-closed rings are accepted (s2 validation gap)."),
